@@ -158,7 +158,31 @@ attribute: using a fitted model (predict, transform, score, …) leaves what `fi
 depending on parameters, training set and seeds only - not on which methods were called since -/
 theorem observers_never_write_fitted_state : observers.all observerOk = true := by decide +kernel
 
+/-- `fit` (its public steps inlined) builds new state: it never writes IN PLACE through a name that may alias what an
+earlier fit stored in a fitted attribute (attributes are rebound, or written after being rebound).  So nothing that still
+holds the arrays of the earlier fit - a shallow copy of the estimator, a reference kept by the caller - is changed by a
+refit, and the earlier model keeps depending on ITS training set only -/
+theorem fits_never_write_prior_state_in_place : fitWriters.all observerOk = true := by decide +kernel
+
+/-- nothing outside the estimator instance can carry state from one call to the next: the census of mutable default
+arguments, memoising decorators, mutable class attributes, module-level mutable objects and `global` statements of the
+packages the properties speak about is the one the models were written against (constant lookup tables only) -/
+theorem no_hidden_process_state :
+    processGlobalState =
+      ["mlmodel/kmeans_constraint.py:ConstraintKMeans: class attribute _strategy_value",
+       "mlmodel/kmeans_l1.py:KMeansL1L2: class attribute _parameter_constraints",
+       "mlmodel/quantile_mlpregressor.py: module-level EXTENDED_LOSS_FUNCTIONS",
+       "mlmodel/quantile_mlpregressor.py: module-level DERIVATIVE_LOSS_FUNCTIONS",
+       "metrics/scoring_metrics.py: module-level _known_functions"] := by decide
+
 /-! ### the property, per class of the current source -/
+
+/-- semantic form of `fits_never_write_prior_state_in_place` -/
+theorem refit_leaves_the_earlier_arrays_alone (w : Observer) (hw : w ∈ fitWriters) (n : Nat) (o : Oracle)
+    (s : Owner.St) (hnext : n ≤ s.next) (henv : ∀ v, v ∉ w.state → n ≤ s.env v) :
+    ∀ l, l < n → (exec Owner.sem w.ownProg o s).2.1.heap l = s.heap l :=
+  Owner.caller_memory_untouched w.ownProg w.state
+    (List.all_eq_true.mp fits_never_write_prior_state_in_place w hw) n o s hnext henv
 
 /-- semantic form: in every execution of every observer of the current source (all branches, all iteration counts,
 an exception at any call), every memory location that existed at entry and is reachable only through the fitted
